@@ -171,6 +171,13 @@ class ndpoly(numpy.ndarray):  # pylint: disable=invalid-name
                 Extra arguments passed to `numpy.ndarray` constructor.
 
         """
+        exponents = numpy.asarray(exponents)
+        if exponents.size and (
+            numpy.any(exponents < 0)
+            or numpy.any(exponents > numpy.iinfo(numpy.uint32).max - cls.KEY_OFFSET)
+        ):
+            # such exponents would silently wrap around to other monomials
+            raise ValueError("exponents must be between 0 and 2**32-60")
         exponents = numpy.array(exponents, dtype=numpy.uint32)
         if numpy.prod(exponents.shape):
             keys = (exponents + cls.KEY_OFFSET).flatten()
